@@ -9,14 +9,25 @@ plus the property's own predicate on the real-code result):
   b2r_ty     object map of biclosed2rigid on nested slash types
   b2r_rule   biclosed2rigid of FA/BA/FC/BC/FX/BX over nested slash types (box dom/cod + image)
   b2r_curry  biclosed2rigid of Curry(diagram, n_wires, left) applied to the box itself
-  b2r        biclosed2rigid of composite biclosed diagrams (rules, generic boxes, Curry inside)
-  ccg        ccg.cat2ty and ccg.tree2diagram on random categories / derivation trees, then b2r
+  b2r_box    biclosed2rigid of ONE word / generic box (ccg.Word, cfg.Word, biclosed.Box and
+             subclasses) with every optional constructor argument at default and non-default
+             values (dom omitted / None / empty / atomic / nested / several objects, data,
+             _dagger), alone and inside a small context (pre-/post-composed, tensored)
+  b2r        biclosed2rigid of composite biclosed diagrams (rules, generic boxes, words with and
+             without a domain, Curry inside), built by the constructor or by >> and @
+  ccg        ccg.cat2ty and ccg.tree2diagram(tree[, dom=...]) on random categories / derivation
+             trees (leaf and inner, dom omitted / empty / atomic / nested), then b2r
+
+Optional arguments are drawn at their default (omitted) AND non-default values throughout:
+eager_parse / brute_force `target`, CFG.generate `max_iter` / `remove_duplicates` / `not_twice` /
+`seed`, Word `dom` / `data` / `_dagger`, Curry `n_wires` / `left`, tree2diagram `dom`; the rule boxes
+are built through their classes and through the static constructors Diagram.fa … Diagram.curry.
 """
 import itertools
 import random
 
 from common import (Driver, Report, ser_result, ser_diagram, ser_ty, wf_failure,
-                    lean_obligations, err_class, tokname)
+                    lean_obligations, err_class, tokname, ty_key)
 from core import tok_ty, tok_box
 
 PROP = "C18"
@@ -234,14 +245,105 @@ def gen_rule_once(r, kind, depth, empties=False, bad=False):
     return (kind, a, b, c, d)
 
 
-def real_rule(spec):
+# Words and generic boxes: (kind, name, dom, cod[, opts]) with kind "gen" (biclosed.Box) or "word"
+# (cfg.Word / ccg.Word); opts = dict(cls=, dom_form=, data=, dagger=) records HOW the constructor
+# is called (which class, which optional arguments are passed and in which form).
+
+GENERIC = ("gen", "word")
+DATA_VALUES = [0, 7, [1, 2], {"k": 1}, False, 0.5]     # no str: cat.Box recurses forever on string data
+_SUBCLASSES = {}
+
+
+def generic_class(kind, opts):
+    """The class a generic box / word is built from (the library's, or a user subclass)."""
+    from discopy import biclosed as B
+    from discopy.grammar import ccg, cfg
+    if not _SUBCLASSES:
+        _SUBCLASSES["ccg_sub"] = type("Noun", (ccg.Word,), {})
+        _SUBCLASSES["box_sub"] = type("Lexical", (B.Box,), {})
+    name = opts.get("cls") or ("box" if kind == "gen" else "ccg")
+    return {"box": B.Box, "ccg": ccg.Word, "cfg": cfg.Word}.get(name) or _SUBCLASSES[name]
+
+
+def real_generic(spec):
+    kind, name, dom, cod = spec[:4]
+    opts = spec[4] if len(spec) > 4 else {}
+    cls = generic_class(kind, opts)
+    kw = {}
+    if opts.get("data") is not None:
+        kw["data"] = opts["data"]
+    if opts.get("dagger"):
+        kw["_dagger"] = True
+    elif opts.get("explicit_defaults"):
+        kw.update(data=kw.get("data"), _dagger=False)
+    if kind == "gen":
+        return cls(name, real_bty(dom), real_bty(cod), **kw)
+    form = opts.get("dom_form") or ("kw" if dom else "none")
+    if dom and form not in ("kw", "pos"):
+        form = "kw"
+    if not dom and form in ("kw", "pos"):
+        form = "empty"
+    if form == "omit":
+        return cls(name, real_bty(cod), **kw)
+    if form == "none":
+        return cls(name, real_bty(cod), dom=None, **kw)
+    if form == "pos":
+        return cls(name, real_bty(cod), real_bty(dom), **kw)
+    return cls(name, real_bty(cod), dom=real_bty(dom), **kw)       # "kw", "empty"
+
+
+def gen_opts(r, kind, dom):
+    opts = {}
+    if kind == "word":
+        opts["cls"] = r.choice(["ccg", "ccg", "ccg", "cfg", "ccg_sub"])
+        opts["dom_form"] = r.choice(["kw", "kw", "pos"]) if dom else r.choice(["omit", "none", "empty"])
+    elif r.random() < 0.15:
+        opts["cls"] = "box_sub"
+    if r.random() < 0.15:
+        opts["dagger"] = True
+    elif r.random() < 0.1:
+        opts["explicit_defaults"] = True
+    if r.random() < 0.2:
+        opts["data"] = r.choice(DATA_VALUES)
+    return opts
+
+
+def gen_generic(r, name, dom, cod, word_share=0.5):
+    kind = "word" if r.random() < word_share else "gen"
+    return (kind, name, list(dom), list(cod), gen_opts(r, kind, dom))
+
+
+def generic_tags(spec):
+    """What region of the constructors' argument space a word / generic box spec visits."""
+    kind, _, dom, cod = spec[:4]
+    opts = spec[4] if len(spec) > 4 else {}
+    shape = "empty" if not dom else "atom" if dom == [dom[0]] and dom[0][0] == "a" else \
+        "one_slash" if len(dom) == 1 else "several_objects"
+    tags = ["%s:cls:%s" % (kind, opts.get("cls") or ("box" if kind == "gen" else "ccg")),
+            "%s:dom:%s" % (kind, shape)]
+    if kind == "word":
+        tags.append("word:dom_form:%s" % (opts.get("dom_form") or "-"))
+    tags.append("%s:dagger:%d" % (kind, 1 if opts.get("dagger") else 0))
+    tags.append("%s:data:%s" % (kind, "default" if opts.get("data") is None else "given"))
+    return tags
+
+
+def real_rule(spec, static=False):
+    """The real box of a spec; `static` builds the rule boxes through the static constructors
+    Diagram.fa(left, right) … Diagram.bx(left, middle, right) (biclosed.py:86-119) where the
+    spec is composable (the classes otherwise)."""
     from discopy import biclosed as B
     k = spec[0]
-    if k == "gen":
-        return B.Box(spec[1], real_bty(spec[2]), real_bty(spec[3]))
-    if k == "word":
-        from discopy.grammar import ccg
-        return ccg.Word(spec[1], real_bty(spec[3]), dom=real_bty(spec[2]) if spec[2] else None)
+    if k in GENERIC:
+        return real_generic(spec)
+    if static and k in ("fa", "ba"):
+        return getattr(B.Diagram, k)(real_bty(spec[1]), real_bty(spec[2]))
+    if static and k in ("fc", "bc") and spec[2] == spec[3]:
+        return getattr(B.Diagram, k)(real_bty(spec[1]), real_bty(spec[2]), real_bty(spec[4]))
+    if static and k == "fx" and spec[2] == spec[4]:       # FX(left << middle, right >> middle)
+        return B.Diagram.fx(real_bty(spec[1]), real_bty(spec[2]), real_bty(spec[3]))
+    if static and k == "bx" and spec[1] == spec[3]:       # BX(middle << left, middle >> right)
+        return B.Diagram.bx(real_bty(spec[2]), real_bty(spec[1]), real_bty(spec[4]))
     if k == "fa":
         return B.FA(real_bty(spec[1]) << real_bty(spec[2]))
     if k == "ba":
@@ -260,14 +362,19 @@ def real_rule(spec):
 
 def tok_rule(spec):
     k = spec[0]
-    if k in ("gen", "word"):
-        return "gen %s %s %s" % (tokname(spec[1]), tok_bty(spec[2]), tok_bty(spec[3]))
+    if k in GENERIC:
+        dagger = bool(len(spec) > 4 and spec[4].get("dagger"))
+        if k == "word":
+            return "word %s %s %s %d" % (tokname(spec[1]), tok_bty(spec[2]), tok_bty(spec[3]),
+                                        1 if dagger else 0)
+        return "%s %s %s %s" % ("dgen" if dagger else "gen", tokname(spec[1]), tok_bty(spec[2]),
+                                tok_bty(spec[3]))
     return k + " " + " ".join(tok_bty(t) for t in spec[1:])
 
 
 def rule_dom(spec):
     k = spec[0]
-    if k in ("gen", "word"):
+    if k in GENERIC:
         return list(spec[2])
     if k == "fa":
         return [("o", spec[1], spec[2])] + list(spec[2])
@@ -283,7 +390,7 @@ def rule_dom(spec):
 
 def rule_cod(spec):
     k = spec[0]
-    if k in ("gen", "word"):
+    if k in GENERIC:
         return list(spec[3])
     if k == "fa":
         return list(spec[1])
@@ -312,18 +419,44 @@ def box_cod(box):
     return rule_cod(box)
 
 
-def real_box(box):
+def real_curry(inner, n, left, form="class"):
+    """Curry(diagram, n_wires=1, left=False), biclosed.py:133-158, called with every argument
+    ("class"), through the static constructor ("static"), or with the arguments that are at
+    their default left out ("defaults")."""
     from discopy import biclosed as B
+    if form == "static":
+        return B.Diagram.curry(inner, n, left)
+    if form == "defaults":
+        kw = {}
+        if n != 1:
+            kw["n_wires"] = n
+        if left:
+            kw["left"] = True
+        return B.Curry(inner, **kw)
+    return B.Curry(inner, n, left)
+
+
+def real_box(box, variant=0):
     if box[0] == "curry":
         _, inner, n, left = box
-        return B.Curry(real_bd(inner), n, left)
-    return real_rule(box)
+        return real_curry(real_bd(inner), n, left, ("class", "static", "defaults")[variant % 3])
+    return real_rule(box, static=variant % 2 == 1)
 
 
-def real_bd(bd):
+def real_bd(bd, ops=False):
+    """The real diagram of a spec, through the constructor (boxes, offsets) or (`ops`) composed
+    layer by layer with the library's own `>>` and `@`."""
     from discopy import biclosed as B
-    return B.Diagram(real_bty(bd["dom"]), real_bty(bd["cod"]),
-                     [real_box(b) for _, b in bd["steps"]], [o for o, _ in bd["steps"]])
+    if not ops:
+        return B.Diagram(real_bty(bd["dom"]), real_bty(bd["cod"]),
+                         [real_box(b) for _, b in bd["steps"]], [o for o, _ in bd["steps"]])
+    scan = list(bd["dom"])
+    d = B.Id(real_bty(scan))
+    for i, (off, box) in enumerate(bd["steps"]):
+        k = len(box_dom(box))
+        d = d >> B.Id(real_bty(scan[:off])) @ real_box(box, i) @ B.Id(real_bty(scan[off + k:]))
+        scan = scan[:off] + box_cod(box) + scan[off + k:]
+    return d
 
 
 def tok_bd(bd):
@@ -350,12 +483,15 @@ def gen_bd(r, depth, nsteps, dom=None, curry_ok=True):
         k = r.randint(0, min(2, len(scan) - off))
         p = r.random()
         if p < 0.3:
-            box = ("gen", "g%d" % r.randint(0, 4), scan[off:off + k],
-                   gen_bty(r, min(depth, 2), lens=(0, 1, 1, 2)))
+            # a generic box or a word (Word(name, cod, dom=scan[off:off+k]): empty domain for
+            # k = 0, the rarely used non-empty one otherwise)
+            box = gen_generic(r, "g%d" % r.randint(0, 4), scan[off:off + k],
+                              gen_bty(r, min(depth, 2), lens=(0, 1, 1, 2)))
             steps.append((off, box))
         elif p < 0.8 or not curry_ok:
             rule = gen_rule(r, r.choice(RULES), max(1, depth), cap=10)
-            feed = ("gen", "h%d" % r.randint(0, 4), scan[off:off + k], rule_dom(rule))
+            feed = gen_generic(r, "h%d" % r.randint(0, 4), scan[off:off + k], rule_dom(rule),
+                               word_share=0.35)
             steps.append((off, feed))
             scan = scan[:off] + rule_dom(rule) + scan[off + k:]
             box = rule
@@ -383,6 +519,16 @@ def bd_kinds(bd, acc=None):
     return acc
 
 
+def bd_tags(bd, acc=None):
+    acc = set() if acc is None else acc
+    for _, box in bd["steps"]:
+        if box[0] in GENERIC:
+            acc.update(generic_tags(box))
+        if box[0] == "curry":
+            bd_tags(box[1], acc)
+    return acc
+
+
 def attempt(fn):
     """Run `fn()` once: ("ok", value) or ("err", exception)."""
     try:
@@ -407,10 +553,45 @@ def b2r_oracle(out, src):
     why = wf_failure(img)
     if why:
         return "image ill-typed: " + why
-    if img.dom != F(src.dom):
-        return "image dom %s != F(dom) %s" % (img.dom, F(src.dom))
-    if img.cod != F(src.cod):
-        return "image cod %s != F(cod) %s" % (img.cod, F(src.cod))
+    try:
+        fdom, fcod = F(src.dom), F(src.cod)
+    except Exception as exc:
+        return "biclosed2rigid raises %s on dom/cod: %s" % (type(exc).__name__, str(exc)[:80])
+    # the library's own == and, independently of it, objects as (name, winding number) lists
+    if img.dom != fdom or ty_key(img.dom) != ty_key(fdom):
+        return "image dom != F(dom): %s != %s" % (img.dom, fdom)
+    if img.cod != fcod or ty_key(img.cod) != ty_key(fcod):
+        return "image cod != F(cod): %s != %s" % (img.cod, fcod)
+    return boxes_preserved(img, src)
+
+
+def source_generics(d, acc=None):
+    """The words / generic boxes of a biclosed diagram in order (those of curried diagrams
+    included, the rule boxes left out)."""
+    from discopy import biclosed as B
+    acc = [] if acc is None else acc
+    for box in d.boxes:
+        if isinstance(box, B.Curry):
+            source_generics(box.diagram, acc)
+        elif not isinstance(box, (B.FA, B.BA, B.FC, B.BC, B.FX, B.BX)):
+            acc.append(box)
+    return acc
+
+
+def boxes_preserved(img, src):
+    """Type preservation box by box: the boxes of the image that are not cups, caps or swaps
+    are as many as the words / generic boxes of the source, and the k-th goes from the image
+    of the k-th one's domain to the image of its codomain."""
+    from discopy import monoidal, rigid
+    from discopy.biclosed import biclosed2rigid as F
+    got = [b for b in img.boxes if not isinstance(b, (rigid.Cup, rigid.Cap, monoidal.Swap))]
+    want = source_generics(src)
+    if len(got) != len(want):
+        return "image boxes: %d words/boxes in the image, %d in the source" % (len(got), len(want))
+    for k, (g, w) in enumerate(zip(got, want)):
+        if ty_key(g.dom) != ty_key(F(w.dom)) or ty_key(g.cod) != ty_key(F(w.cod)):
+            return "image boxes: box %d (%s) is %s -> %s, the image of %r is %s -> %s" % (
+                k, g.name, g.dom, g.cod, w, F(w.dom), F(w.cod))
     return None
 
 
@@ -618,14 +799,21 @@ def run(tier, seed, replay=None):
         "cups. cfg: random grammars over 2-6 symbols, recorded shuffles; non-trivial = >= 1 "
         "sentence with >= 3 productions. b2r_*: slash types nested to depth <= %d with composite "
         "(and, in a ~10%% share, empty) left and right sides; non-trivial = some side of the rule "
-        "has an image of >= 2 wires. ccg: derivation trees of depth <= %d over fa/ba/fc/other; "
-        "non-trivial = >= 2 rule nodes. Distinct by request token string."
+        "has an image of >= 2 wires. b2r_box: one word / generic box (ccg.Word, cfg.Word, biclosed.Box, "
+        "user subclasses) with dom omitted / None / empty / atom / one slash type / several objects, "
+        "data and _dagger at default and non-default values, alone and pre-/post-composed / tensored "
+        "with other words and boxes; non-trivial = non-empty dom and >= 2 image wires in all. b2r: "
+        "diagrams mixing rules, Curry, boxes and words (with and without dom), built by the "
+        "constructor or with >> and @. ccg: derivation trees of depth <= %d over fa/ba/fc/other, "
+        "tree2diagram's optional dom omitted / empty / atom / nested (leaf and inner trees); "
+        "non-trivial = >= 2 rule nodes. Optional arguments of every front-end are drawn at default "
+        "(omitted) and non-default values. Distinct by request token string."
         % (6 if thorough else 4, 5 if thorough else 3))
     rep.assumptions = [
         "atom / word / production names are generator-chosen identifiers (their Python repr is "
         "the identifier in quotes); CCG category strings use letters, digits, ()[]/\\ only",
-        "biclosed boxes are not daggered; Over/Under are built with << and >> (never "
-        "biclosed.Ty(over) by hand)",
+        "Over/Under are built with << and >> (never biclosed.Ty(over) by hand); box `data` is not a "
+        "string (cat.Box.__init__ recurses without bound on string data, outside this property)",
         "CFG.generate: `random.shuffle` is an arbitrary permutation (the model takes the recorded "
         "permutations as an oracle stream); the generator is consumed to the end",
     ]
@@ -644,6 +832,8 @@ def run(tier, seed, replay=None):
         stream_curry(rep, drv, random.Random(rng.getrandbits(64)), 500 * scale, depth)
         stream_bd(rep, drv, random.Random(rng.getrandbits(64)), 400 * scale, depth)
         stream_ccg(rep, drv, random.Random(rng.getrandbits(64)), 400 * scale, thorough)
+        # drawn last: the streams above keep the cases they had before this one existed
+        stream_box(rep, drv, random.Random(rng.getrandbits(64)), 400 * scale, depth)
     finally:
         drv.close()
     return rep.finish()
@@ -670,17 +860,22 @@ def stream_eager(rep, drv, rng, n, thorough):
     lines = ["eager_parse %s %s" % (tok_ty(t), " ".join([str(len(ws))] + [tok_box(w) for w in ws]))
              for ws, t, _ in cases]
     answers = ask_all(drv, lines)
+    opt_rng = random.Random(rng.getrandbits(64))
     for (ws, t, tags), line, model in zip(cases, lines, answers):
         words = [real_word(w) for w in ws]
         target = rty(t)
         value = [None]
 
+        # the default `target=Ty('s')` is left out in half of the cases where it is the target
+        omit = t == [("s", 0)] and opt_rng.random() < 0.5
+
         def thunk():
-            value[0] = eager_parse(*words, target=target)
+            value[0] = eager_parse(*words) if omit else eager_parse(*words, target=target)
             return value[0]
         real = ser_result(thunk)
-        compare(rep, "eager_parse", dict(words=ws, target=t), line, real, model)
+        compare(rep, "eager_parse", dict(words=ws, target=t, target_omitted=omit), line, real, model)
         rep.count("eager:gen:" + tags[0])
+        rep.count("eager:target_arg:" + ("omitted" if omit else "given"))
         rep.count("eager:result:" + (real.split(" ")[1] if real.startswith("err") else "ok"))
         rep.count("eager:words:%d" % len(ws))
         ncups = 0
@@ -723,22 +918,26 @@ def stream_brute(rep, drv, rng, n, thorough):
     cases.append((classic, [], 8, 5))        # always run: s-typed sentences exist, Ty() requested
     cases.append((classic, [ss], 8, 5))
     cases.append(([word_spec("a", [nn]), word_spec("b", [("n", 1)])], [], 4, 3))
+    opt_rng = random.Random(rng.getrandbits(64))
     try:
         for vocab, t, k, take in cases:
             words = [real_word(w) for w in vocab]
             target = rty(t)
+            omit = t == [("s", 0)] and opt_rng.random() < 0.5     # default target left out
+            rep.count("brute:target_arg:" + ("omitted" if omit else "given"))
             calls = [0]
             budget = k * max(1, len(words))
 
-            def counted(*ws, target=None, _calls=calls, _budget=budget):
+            def counted(*ws, _calls=calls, _budget=budget, **kw):
                 if _calls[0] >= _budget:
                     raise Budget()
                 _calls[0] += 1
-                return orig(*ws, target=target)
+                return orig(*ws, **kw)
             pregroup.eager_parse = counted
             got = []
             try:
-                for d in pregroup.brute_force(*words, target=target):
+                for d in (pregroup.brute_force(*words) if omit else
+                          pregroup.brute_force(*words, target=target)):
                     got.append(d)
                     if len(got) >= take:
                         break
@@ -798,11 +997,33 @@ def stream_cfg(rep, drv, rng, n, thorough):
             rprods = [real_prod(p) for p in prods]
             rnot = [rprods[prods.index(p)] for p in not_twice]
             rstart = monoidal.Ty(*[s for s, _ in start])
+            # optional arguments at their defaults are left out in a share of the cases
+            # (max_iter=100, remove_duplicates=False, not_twice=None, seed=None: the recorder's
+            # generator is seeded with case_seed either way)
+            kw = dict(max_iter=max_iter, remove_duplicates=remove_dup, not_twice=rnot or None,
+                      seed=case_seed)
+            if rng.random() < 0.12:
+                max_iter = 100
+                del kw["max_iter"]
+            if not remove_dup and rng.random() < 0.5:
+                del kw["remove_duplicates"]
+            if not rnot and rng.random() < 0.5:
+                del kw["not_twice"]
+            elif not rnot and rng.random() < 0.5:
+                kw["not_twice"] = []
+            if rng.random() < 0.3:
+                del kw["seed"]
+            positional = rng.random() < 0.2 and "max_iter" in kw
+            rep.count("cfg:kwargs:" + ("positional" if positional else
+                                       ",".join(sorted(kw)) or "none"))
             got = None
             try:
-                got = list(cfg.CFG(*rprods).generate(
-                    rstart, max_sentences, max_depth, max_iter=max_iter,
-                    remove_duplicates=remove_dup, not_twice=rnot or None, seed=case_seed))
+                if positional:
+                    got = list(cfg.CFG(*rprods).generate(
+                        rstart, max_sentences, max_depth, kw["max_iter"],
+                        kw.get("remove_duplicates", False), kw.get("not_twice"), kw.get("seed")))
+                else:
+                    got = list(cfg.CFG(*rprods).generate(rstart, max_sentences, max_depth, **kw))
                 real = "ok " + " ".join([str(len(got))] + [ser_diagram(d) for d in got])
             except Exception as exc:
                 real = "err " + err_class(exc)
@@ -871,12 +1092,14 @@ def stream_rule(rep, drv, rng, n_per_rule, depth):
     for c, sl, il, msig, mimg in zip(cases, sig_lines, img_lines, sigs, imgs):
         kind = c[0]
         box = None
+        static = rng.random() < 0.4       # through Diagram.fa … Diagram.bx instead of the class
         try:
-            box = real_rule(c)
+            box = real_rule(c, static=static)
             rsig = "ok %s %s" % (ser_bty(box.dom), ser_bty(box.cod))
         except Exception as exc:
             rsig = "err " + err_class(exc)
-        compare(rep, "rule_sig", c, sl, rsig, msig)
+        compare(rep, "rule_sig", dict(rule=c, static=static), sl, rsig, msig)
+        rep.count("rule:built_by:" + ("static_constructor" if static else "class"))
         sides = [bty_img_len(t) for t in c[1:]]
         nontrivial = max(sides) >= 2
         rep.count("rule:%s:%s" % (kind, "refused" if box is None else
@@ -923,8 +1146,12 @@ def stream_curry(rep, drv, rng, n, depth):
     img_lines = ["b2r_curry %s %d %d" % (tok_bd(i), nw, 1 if l else 0) for i, nw, l in cases]
     sigs, imgs = ask_all(drv, sig_lines), ask_all(drv, img_lines)
     for (inner, nw, left), sl, il, msig, mimg in zip(cases, sig_lines, img_lines, sigs, imgs):
-        rinner = real_bd(inner)
-        box = B.Curry(rinner, nw, left)
+        rinner = real_bd(inner, ops=rng.random() < 0.3)
+        form = rng.choice(["class", "static", "defaults"])
+        box = real_curry(rinner, nw, left, form)
+        rep.count("curry:built_by:" + form)
+        for tag in bd_tags(inner):
+            rep.count("curry:inner:" + tag)
         rsig = "ok %s %s" % (ser_bty(box.dom), ser_bty(box.cod))
         compare(rep, "curry_sig", dict(inner=inner, n=nw, left=left), sl, rsig, msig)
         out = attempt(lambda: F(box))
@@ -942,6 +1169,103 @@ def stream_curry(rep, drv, rng, n, depth):
             rep.fail(rc[0], dict(inner=inner, n_wires=nw, left=left), rc[1])
 
 
+# ---- one word / generic box, every optional constructor argument
+
+def gen_box_dom(r, mode, depth):
+    if mode == 0:
+        return []
+    if mode == 1:
+        return [("a", r.choice(ATOMS))]
+    if mode == 2:
+        return gen_bty(r, r.randint(1, depth), lens=(1,))
+    return gen_bty(r, r.randint(0, depth), empties=r.random() < 0.15, lens=(2, 2, 3))
+
+
+CONTEXTS = ["alone", "alone", "diagram", "pre", "post", "tensor", "between"]
+
+
+def stream_box(rep, drv, rng, n, depth):
+    """One word / generic box `name : dom -> cod` of every class, with every optional argument
+    at default and non-default values; translated on its own (`F(box)`) and in a context:
+    "diagram" wraps it in a one-box Diagram, "pre" feeds its domain from a generic box, "post"
+    consumes its codomain, "tensor" puts a word on each side, "between" does pre and post."""
+    from discopy.biclosed import biclosed2rigid as F
+    cases = []
+    for k in range(n):
+        while True:
+            dom = gen_box_dom(rng, k % 4, min(depth, 3))
+            cod = gen_bty(rng, rng.randint(0, min(depth, 3)), lens=(0, 1, 1, 1, 2, 3))
+            if bty_img_len(dom) + bty_img_len(cod) <= 16:
+                break
+        spec = gen_generic(rng, "w%d" % rng.randint(0, 9), dom, cod, word_share=0.7)
+        ctx = rng.choice(CONTEXTS)
+        other = lambda nm, a, b: gen_generic(rng, nm, a, b, word_share=0.5)
+        if ctx == "alone":
+            bd = None
+        elif ctx == "diagram":
+            bd = dict(dom=dom, steps=[(0, spec)], cod=cod)
+        elif ctx == "pre":
+            src = gen_bty(rng, 1, lens=(0, 1, 2))
+            bd = dict(dom=src, steps=[(0, other("p", src, dom)), (0, spec)], cod=cod)
+        elif ctx == "post":
+            tgt = gen_bty(rng, 1, lens=(0, 1, 2))
+            bd = dict(dom=dom, steps=[(0, spec), (0, other("q", cod, tgt))], cod=tgt)
+        elif ctx == "between":
+            src, tgt = gen_bty(rng, 1, lens=(0, 1, 2)), gen_bty(rng, 1, lens=(0, 1, 2))
+            bd = dict(dom=src, steps=[(0, other("p", src, dom)), (0, spec), (0, other("q", cod, tgt))],
+                      cod=tgt)
+        else:
+            l1, l2 = gen_bty(rng, 1, lens=(0, 1)), gen_bty(rng, 1, lens=(1, 2))
+            r1, r2 = gen_bty(rng, 1, lens=(0, 1)), gen_bty(rng, 1, lens=(1,))
+            bd = dict(dom=l1 + dom + r1, cod=l2 + cod + r2, steps=[
+                (0, other("l", l1, l2)), (len(l2), spec), (len(l2) + len(cod), other("r", r1, r2))])
+        cases.append((spec, ctx, bd))
+    # pinned: a word whose domain is an atom / a nested slash type, alone and after a box
+    x, y, z = [("a", "x")], [("a", "y")], [("a", "z")]
+    for dom in (x, [("u", x, y)], [("o", [("u", x, y)], z)] + y):
+        w = ("word", "quickly", dom, [("u", x, y)], dict(cls="ccg", dom_form="kw"))
+        cases.append((w, "alone", None))
+        cases.append((w, "pre", dict(dom=z, steps=[(0, ("gen", "g", z, dom, {})), (0, w)],
+                                     cod=[("u", x, y)])))
+    lines = [("b2r_rule " + tok_rule(sp)) if bd is None else ("b2r " + tok_bd(bd))
+             for sp, _, bd in cases]
+    for (spec, ctx, bd), line, model in zip(cases, lines, ask_all(drv, lines)):
+        case = dict(box=spec, context=ctx, diagram=bd)
+        for tag in generic_tags(spec):
+            rep.count("box:" + tag)
+        rep.count("box:context:" + ctx)
+        try:
+            src = real_generic(spec) if bd is None else real_bd(bd, ops=ctx != "diagram")
+        except Exception as exc:
+            rep.fail("b2r_box:construction_raises", case,
+                     "building the box raises %s: %s" % (type(exc).__name__, str(exc)[:80]))
+            continue
+        # the constructor keeps what it was given (cfg.py:46-54): the spec's dom and cod
+        if ser_bty(src.dom) != tok_bty_ser(bd["dom"] if bd else spec[2]) or \
+                ser_bty(src.cod) != tok_bty_ser(bd["cod"] if bd else spec[3]):
+            rep.disagree("box_sig", case, "%s -> %s" % (ser_bty(src.dom), ser_bty(src.cod)),
+                         "%s -> %s" % (tok_bty_ser((bd or {}).get("dom", spec[2])),
+                                       tok_bty_ser((bd or {}).get("cod", spec[3]))))
+        out = attempt(lambda: F(src))
+        real = ser_outcome(out)
+        compare(rep, "b2r_box", case, line, real, model)
+        nontrivial = bool(spec[2]) and bty_img_len(spec[2]) + bty_img_len(spec[3]) >= 2
+        rep.case(line, nontrivial)
+        if bd is None:
+            rc = root_cause(spec) if b2r_oracle(out, src) else None
+        else:
+            rc = diagram_failure(bd, src, out)
+        if rc:
+            rep.fail(rc[0], case, rc[1])
+        elif nontrivial and spec[0] == "word":
+            rep.sample(dict(stream="b2r_box", request=line[:300], answer=real[:160]), cap=3)
+
+
+def tok_bty_ser(t):
+    """The tokens `ser_bty` gives the real type of a spec."""
+    return tok_bty(t)
+
+
 # ---- composite biclosed diagrams
 
 def stream_bd(rep, drv, rng, n, depth):
@@ -951,7 +1275,13 @@ def stream_bd(rep, drv, rng, n, depth):
     img_lines = ["b2r " + tok_bd(c) for c in cases]
     sigs, imgs = ask_all(drv, sig_lines), ask_all(drv, img_lines)
     for c, sl, il, msig, mimg in zip(cases, sig_lines, img_lines, sigs, imgs):
-        d = real_bd(c)
+        ops = rng.random() < 0.5
+        try:
+            d = real_bd(c, ops=ops)
+        except Exception as exc:
+            rep.fail("b2r:diagram:construction_raises", dict(diagram=c, ops=ops),
+                     "building the diagram raises %s: %s" % (type(exc).__name__, str(exc)[:80]))
+            continue
         rsig = "ok %s %s" % (ser_bty(d.dom), ser_bty(d.cod))
         compare(rep, "bd_sig", c, sl, rsig, msig)
         out = attempt(lambda: F(d))
@@ -960,6 +1290,9 @@ def stream_bd(rep, drv, rng, n, depth):
         kinds = bd_kinds(c)
         for k in kinds:
             rep.count("bd:box:" + k)
+        for tag in bd_tags(c):
+            rep.count("bd:" + tag)
+        rep.count("bd:built_by:" + ("operators" if ops else "constructor"))
         rep.case(il, len(kinds - {"gen"}) >= 1 and len(d.boxes) >= 3)
         rc = diagram_failure(c, d, out)
         if rc:
@@ -1000,11 +1333,22 @@ def stream_ccg(rep, drv, rng, n, thorough):
     for _ in range(n):
         root = gen_cat(rng, rng.randint(0, 2))
         trees.append((gen_tree(rng, root, rng.randint(1, 5 if thorough else 3), [0]), root))
-    lines = ["tree2diagram " + tok_tree(t) for t, _ in trees]
-    for (t, root), line, model in zip(trees, lines, ask_all(drv, lines)):
+    # the optional `dom` of tree2diagram (ccg.py:46): omitted, the explicit empty type, an atom, a
+    # nested slash type, several objects
+    doms = []
+    for _ in trees:
+        q = rng.random()
+        doms.append(None if q < 0.45 else [] if q < 0.55 else [("a", rng.choice(ATOMS))] if q < 0.7
+                    else gen_bty(rng, rng.randint(1, 3)))
+    lines = ["tree2diagram %s %s" % (tok_bty(x or []), tok_tree(t)) for (t, _), x in zip(trees, doms)]
+    for (t, root), dom, line, model in zip(trees, doms, lines, ask_all(drv, lines)):
         d = None
+        leaf = "word" in t
+        rep.count("ccg:dom_arg:%s:%s" % ("leaf" if leaf else "inner_node", "omitted" if dom is None else
+                                      "empty" if not dom else "nonempty"))
+        t = dict(t, **{"dom argument": dom}) if dom is not None else t     # for the report only
         try:
-            d = ccg.tree2diagram(t)
+            d = ccg.tree2diagram(t) if dom is None else ccg.tree2diagram(t, dom=real_bty(dom))
             out = attempt(lambda: F(d))
             real = "ok %s %s | %s" % (ser_bty(d.dom), ser_bty(d.cod), ser_outcome(out))
         except Exception as exc:
@@ -1013,6 +1357,8 @@ def stream_ccg(rep, drv, rng, n, thorough):
         types = tree_types(t)
         for k in set(types):
             rep.count("ccg:node:" + k)
+        if leaf:
+            rep.count("ccg:node:none(leaf)")
         rules = [k for k in types if k in ("fa", "ba", "fc")]
         rep.case(line, len(rules) >= 2)
         if d is None:
@@ -1021,7 +1367,7 @@ def stream_ccg(rep, drv, rng, n, thorough):
         if len(rules) >= 2:
             rep.sample(dict(stream="tree2diagram", request=line[:300], answer=real[:160]), cap=4)
         why = b2r_oracle(out, d)
-        if why is None and len(d.dom) != 0:
+        if why is None and not dom and len(d.dom) != 0:
             why = "derivation has a non-empty domain"
         if why is None and ser_bty(d.cod, raw) != tok_bty_raw(cat_bty(root)):
             why = "derivation codomain %s is not the root category %s" % (d.cod, t["cat"])
